@@ -16,9 +16,9 @@ SX0 = {"sym": "SX", "compact": 0}
 MX0 = {"sym": "MX", "compact": 0}
 
 
-def fns(levels, more_out=(False,), syms=("SX", "MX"), generic_calls=1, params=None, first_bare=False):
+def fns(levels, more_out=(False,), syms=("SX", "MX"), generic_calls=1, params=None, first_bare=False, pre="none"):
     return [{"sym": s, "compact": c, "more_out": mo, "generic_calls": generic_calls, "params": [dict(p) for p in (params or [])],
-             "first_bare": first_bare}
+             "first_bare": first_bare, "pre": pre}
             for s in syms for c in levels for mo in more_out]
 
 
@@ -186,6 +186,29 @@ def derive_dupnames(case, rng):
     return dict(case, names=names, rel={"kind": "dupnames", "base_id": case["id"]}, want={"np": True, "fn": []})
 
 
+def derive_names(case, rng, mode):
+    """element names are labels chosen by the user: adversarial ones (a link called 'o_<origin name>', names that look
+    like variable names) or the same name for every element of a kind.  Arguments are then only fed by position."""
+    net = case["net"]
+    nodes = sorted({k["up"] for k in net["links"].values()} | {k["down"] for k in net["links"].values()})
+    names = {}
+    if mode == "dup":
+        names = {**{l: "L" for l in net["links"]}, **{o: "O" for o in net["origins"]}, **{d: "D" for d in net["dests"]}, **{n: "N" for n in nodes}}
+    else:
+        pool = ["rho", "v", "w", "d", "v_ctrl", "r", "q", "x", "u", "p", "q_o", "rho_v", "x+"]
+        rng.shuffle(pool)
+        os_ = list(net["origins"])
+        for i, o in enumerate(os_):
+            names[o] = f"X{i}"
+        for i, l in enumerate(net["links"]):
+            names[l] = f"o_X{i}" if i < max(1, len(os_)) else pool[i % len(pool)]
+        for i, d in enumerate(net["dests"]):
+            names[d] = pool[(i + 5) % len(pool)] + "_"
+        for i, n in enumerate(nodes):
+            names[n] = f"n{i}"
+    return dict(case, names=names, names_mode=mode, rel={"kind": "names", "base_id": case["id"]})
+
+
 def derive_scale(case, rng):
     """turn rates of all links leaving a node multiplied by a common positive factor"""
     from fractions import Fraction
@@ -271,11 +294,14 @@ PLANS = {
     "C10": dict(rel=rel_C10, want={"np": True, "sens": True, "jac": ["SX", "MX"]},
                 quick=dict(n=3, m=3, variants=2, generic=1, corners=0, rand=40),
                 thorough=dict(n=4, m=5, variants=4, generic=1, corners=2, rand=600)),
-    "C04": dict(rel=rel_C04, traj=True, derive=("perm",), also={"opts": dict(variants=1, generic=1, corners=0)}, want=lambda c: {"np": False, "fn": fns((-1, 0, 1, 2, 3), more_out=(False, True), generic_calls=2)
+    "C04": dict(rel=rel_C04, traj=True, derive=("perm", "names"),
+                derived_want={"np": False, "fn": fns((0, 1, 2), more_out=(True,), generic_calls=2) + fns((-1, 3), more_out=(False,), syms=("SX",))}, also={"opts": dict(variants=1, generic=1, corners=0)}, want=lambda c: {"np": False, "fn": fns((-1, 0, 1, 2, 3), more_out=(False, True), generic_calls=2)
                                              + param_fns(c, levels=(0, 1, 2), more_out=(True,), nsets=1)},
                 quick=dict(n=3, m=3, variants=1, generic=1, corners=0, rand=30, nderive=2),
                 thorough=dict(n=4, m=5, variants=3, generic=1, corners=0, rand=400, nderive=1)),
-    "C11": dict(rel=rel_C11, family="opts", want={"np": True, "np_plain": True, "fn": fns((0,)) + fns((2,), syms=("SX",)) + fns((1,), more_out=(True,), syms=("MX",))},
+    "C11": dict(rel=rel_C11, family="opts", want={"np": True, "np_plain": True, "fn": fns((0,)) + fns((2,), syms=("SX",)) + fns((1,), more_out=(True,), syms=("MX",))
+                                                              # initial conditions supplied by the caller as EXPRESSIONS of its own symbols
+                                                              + fns((0,), syms=("MX",), generic_calls=2, pre="fmaxm20") + fns((1,), syms=("SX",), generic_calls=2, pre="affine")},
                 quick=dict(n=3, m=3, variants=1, generic=4, corners=4, rand=0),
                 thorough=dict(n=4, m=4, variants=2, generic=8, corners=13, rand=0)),
     "C12": dict(rel=rel_C12, also={"opts": dict(variants=1, generic=1, corners=0), "neg": dict(variants=1, generic=1, corners=0)},
@@ -344,6 +370,11 @@ def run(pid: str, tier: str, plan=None, extra_cases=None) -> dict:
                     derived.append(dict(derive_scale(c, rng), id=f"{c['id']}-scale{k}"))
                 if "dupnames" in plan["derive"] and k == 0:
                     derived.append(dict(derive_dupnames(c, rng), id=f"{c['id']}-dup"))
+                if "names" in plan["derive"] and k == 0:
+                    derived.append(dict(derive_names(c, rng, "adv"), id=f"{c['id']}-advnames"))
+                    derived.append(dict(derive_names(c, rng, "dup"), id=f"{c['id']}-samenames"))
+        if plan.get("derived_want"):
+            derived = [dict(c, want=plan["derived_want"]) for c in derived]
         base = base + derived
     if plan.get("traj"):
         base = base + trajectory_cases(cases + rnd, tier, rng)
